@@ -396,6 +396,9 @@ Definition error_lines_ok : bool :=
   (* ReadMarker / loadMeta: a failed Get is returned *)
   error_returned_after "bkt.ReaderWithExpectedErrs().Get" ReadMarker_events
   && error_returned_after "f.bkt.ReaderWithExpectedErrs().Get" loadMeta_events
+  (* ... and so is a failed read of the body, before the content is parsed *)
+  && error_returned_after "io.ReadAll" ReadMarker_events
+  && error_returned_after "io.ReadAll" loadMeta_events
   (* fetchMetadata: lister / worker errors returned; other loadMeta errors => metaErrs *)
   && error_returned_after "eg.Wait" fetchMetadata_events
   && existsb (ev_is "call" "resp.metaErrs.Add") fetchMetadata_events
